@@ -27,3 +27,42 @@ Theorem C10_window1_is_euclidean : forall u s1 s2,
   adj_max_step u = Inf -> u_psi u = ((0%nat, 0%nat), (0%nat, 0%nat)) ->
   dtw_value u s1 s2 = Fin (ed_model (u_inner u) s1 s2).
 Proof. exact w1_is_ed. Qed.
+
+(* The same laws for the routines AS WRITTEN: dtw.distance (rolling buffer, PyDist.dist_model) and its early
+   abandoning variant inherit them through the refinement theorems of C01 / C03. *)
+From DV Require Import PyDist PyDistProofs Prune PyDistPrune.
+
+Definition guard (u : usettings) (s1 s2 : list point) : Prop :=
+  (1 <= eff_window u (length s1) (length s2))%Z /\ (1 <= length s1)%nat /\ (1 <= length s2)%nat /\
+  ((psi_1b u < length s1)%nat \/ (psi_2e u < length s2)%nat).
+
+Theorem C10_code_nonneg : forall u s1 s2, guard u s1 s2 -> pen_ok u -> cle (Fin 0) (dist_model u s1 s2).
+Proof.
+  intros u s1 s2 (Hw & Hr & Hc & Hpsi) Hp. rewrite (dist_model_is_dtw_model u s1 s2 Hw Hr Hc Hpsi). apply dtw_model_nonneg. exact Hp.
+Qed.
+
+Theorem C10_code_identity : forall u s, guard u s s ->
+  pen_ok u -> max_step_ok u -> (match u_max_length_diff u with Some m => (0 <= m)%Z | None => True end) ->
+  dist_model u s s = Fin 0.
+Proof.
+  intros u s (Hw & Hr & Hc & Hpsi) Hp Hm Hl. rewrite (dist_model_is_dtw_model u s s Hw Hr Hc Hpsi).
+  apply dtw_model_identity; assumption.
+Qed.
+
+Theorem C10_code_symmetry : forall u s1 s2, guard u s1 s2 -> guard (swap_psi u) s2 s1 ->
+  dist_model (swap_psi u) s2 s1 = dist_model u s1 s2.
+Proof.
+  intros u s1 s2 (Hw & Hr & Hc & Hpsi) (Hw' & Hr' & Hc' & Hpsi').
+  rewrite (dist_model_is_dtw_model u s1 s2 Hw Hr Hc Hpsi), (dist_model_is_dtw_model (swap_psi u) s2 s1 Hw' Hr' Hc' Hpsi').
+  apply dtw_model_sym.
+Qed.
+
+(* early abandoning never changes a value below the bound, for the routine as written *)
+Theorem C10_code_pruning_transparent : forall u s1 s2 B, guard u s1 s2 -> pen_ok u ->
+  cle (dist_model u s1 s2) B -> distp_model u s1 s2 B = dist_model u s1 s2.
+Proof.
+  intros u s1 s2 B (Hw & Hr & Hc & Hpsi) Hp Hle.
+  rewrite (distp_model_is_bounded_model u s1 s2 B Hw Hr Hc Hp Hpsi).
+  rewrite (dist_model_is_dtw_model u s1 s2 Hw Hr Hc Hpsi) in *. unfold dtw_model in *.
+  destruct (too_long u s1 s2); [reflexivity|]. unfold bounded. unfold cle in Hle. rewrite Hle. reflexivity.
+Qed.
